@@ -112,7 +112,7 @@ def make_replay(prop, r, scratch, scratch_repo, log):
         rec["verifier_output"] = (r.raw or "")[-8000:]
         rec["note"] = "back end gives no counterexample; no-failing-input-found"
     else:
-        tests, tail = extract_counterexample(ob, scratch_repo, max(ob.timeout, 600))
+        tests, tail = extract_counterexample(ob, scratch_repo, max(3 * ob.timeout, 1800))
         rec["verifier_output"] = tail
         if tests:
             test_src = tests[0]
